@@ -1,0 +1,12 @@
+//go:build !verif
+
+package validate
+
+// Verification hooks (build tag "verif") are disabled in this build:
+// the guarded branches in pools.go are dead code and the calls below are no-ops.
+
+const verifEnabled = false
+
+func verifBorrowed[T any](x T) T { return x }
+
+func verifRedeemed(any) {}
